@@ -284,17 +284,17 @@ Proof.
   - assert (pa = pr') by (unfold proc_at in *; congruence); subst pa.
     apply (step_proc_at_other _ _ _ b pb H) in Hb; auto.
     rewrite Hm in Hev. destruct (repo_mode (p_pc pr)) as [m|] eqn:Em; cbn in Hev.
-    + subst m. eapply Inv; eauto.
+    + subst m. apply (Inv i b pr pb); auto.
     + unfold repo_free_x in Hev. pose proof (forallb_nth _ _ _ _ _ Hev Hb) as Hf. cbn in Hf.
       destruct (repo_mode (p_pc pb)); [discriminate|reflexivity].
   - assert (pb = pr') by (unfold proc_at in *; congruence); subst pb.
     apply (step_proc_at_other _ _ _ a pa H) in Ha; auto.
-    assert (Hn : repo_mode (p_pc pr) = None) by (eapply Inv; eauto).
+    assert (Hn : repo_mode (p_pc pr) = None) by (apply (Inv a i pa pr); auto).
     rewrite Hn in Hev. destruct (repo_mode (p_pc pr')) as [[|]|] eqn:Em'; cbn in Hev; auto.
     + unfold repo_free_x in Hev. pose proof (forallb_nth _ _ _ _ _ Hev Ha) as Hf. cbn in Hf. rewrite Hm in Hf; discriminate.
     + unfold repo_free_s in Hev. pose proof (forallb_nth _ _ _ _ _ Hev Ha) as Hf. cbn in Hf. rewrite Hm in Hf; discriminate.
   - apply (step_proc_at_other _ _ _ a pa H) in Ha; auto. apply (step_proc_at_other _ _ _ b pb H) in Hb; auto.
-    eapply Inv; eauto.
+    apply (Inv a b pa pb); auto.
 Qed.
 
 (* a shared holder and an exclusive holder never coexist *)
@@ -302,4 +302,369 @@ Lemma excl_repo_shared : forall s i j pi pj, excl_repo s -> i <> j -> proc_at s 
   repo_mode (p_pc pi) = Some false -> repo_mode (p_pc pj) <> Some true.
 Proof.
   intros s i j pi pj Inv Hne Hi Hj Hm Hx. rewrite (Inv j i pj pi) in Hm; auto; discriminate.
+Qed.
+
+(* ------------------------------------------------------------------ pkg.json locks *)
+Definition pkg_evolves (a b : option (N * bool)) (s : state) : Prop :=
+  match a, b with
+  | None, Some (q, true) => pkg_free_x s q = true
+  | None, Some (q, false) => pkg_free_s s q = true
+  | Some x, Some y => x = y
+  | _, None => True
+  end.
+
+Lemma start_pc_cases : forall ops,
+  start_pc ops = PDone \/ start_pc ops = IStart \/ start_pc ops = UOpenRepo \/ start_pc ops = GStart \/ start_pc ops = XUnlink.
+Proof. destruct ops as [|o r]; cbn; auto. destruct (o_kind o); auto. Qed.
+
+Lemma pkg_lock_finish : forall pr r, pkg_lock (finish pr r) = None.
+Proof. intros. apply pkg_lock_none. cbn. apply pc_pkg_lock_start. Qed.
+
+Lemma pkg_lock_use_return : forall pr b, pkg_lock (use_return pr b) = None.
+Proof. intros. apply pkg_lock_none. destruct (use_return_pc pr b) as [E|[E|E]]; rewrite E; reflexivity. Qed.
+
+Lemma pkg_lock_gc_return : forall pr sz, pkg_lock (gc_return pr sz) = None.
+Proof.
+  intros. apply pkg_lock_none. destruct (gc_return_pc pr sz) as [E|E]; rewrite E; [reflexivity|apply pc_pkg_lock_start].
+Qed.
+
+Ltac norm_next :=
+  repeat match goal with
+  | E : after_scan _ = inl _ |- _ => apply after_scan_inl in E; destruct E as [E|[? [E|E]]]; subst
+  | E : move_next _ = inl _ |- _ => apply move_next_inl in E; destruct E as [E|E]; subst
+  end.
+
+Lemma step_pkg_lock : forall s i s' pr pr', step s i = Some s' -> proc_at s i pr -> proc_at s' i pr' ->
+  pkg_evolves (pkg_lock pr) (pkg_lock pr') s.
+Proof.
+  intros s i s' pr0 pr' H Hp0 Hp'. unfold proc_at in *.
+  step_cases H pr Hpr Hpc; subst; inversion Hp0; subst pr0; clear Hp0;
+    unfold flush_repo in Hp';
+    repeat match type of Hp' with context [if ?b then _ else _] => destruct b end;
+    simp_st; rewrite (nth_error_set_nth_same _ _ _ _ _ Hpr) in Hp'; inversion Hp'; subst pr'; clear Hp';
+    norm_next;
+    unfold pkg_evolves; rewrite ?pkg_lock_finish, ?pkg_lock_use_return, ?pkg_lock_gc_return;
+    unfold pkg_lock at 1; rewrite Hpc;
+    try (unfold pkg_lock; simp_st; unfold cur; simp_st; fold (cur pr); auto; fail);
+    auto.
+Qed.
+
+Definition excl_pkg (s : state) : Prop :=
+  forall i j pi pj q, i <> j -> proc_at s i pi -> proc_at s j pj ->
+    pkg_lock pi = Some (q, true) -> forall m, pkg_lock pj <> Some (q, m).
+
+Lemma pkg_free_x_nth : forall s q j pj m, pkg_free_x s q = true -> proc_at s j pj -> pkg_lock pj <> Some (q, m).
+Proof.
+  unfold pkg_free_x, proc_at; intros s q j pj m Hf Hj Hl.
+  pose proof (forallb_nth _ _ _ _ _ Hf Hj) as H. cbn in H. rewrite Hl in H. rewrite N.eqb_refl in H. discriminate.
+Qed.
+
+Lemma pkg_free_s_nth : forall s q j pj, pkg_free_s s q = true -> proc_at s j pj -> pkg_lock pj <> Some (q, true).
+Proof.
+  unfold pkg_free_s, proc_at; intros s q j pj Hf Hj Hl.
+  pose proof (forallb_nth _ _ _ _ _ Hf Hj) as H. cbn in H. rewrite Hl in H. rewrite N.eqb_refl in H. discriminate.
+Qed.
+
+Lemma excl_pkg_step : forall s i s', excl_pkg s -> step s i = Some s' -> excl_pkg s'.
+Proof.
+  intros s i s' Inv H a b pa pb q Hab Ha Hb Hl m Hl2.
+  destruct (step_proc_at_self _ _ _ H) as (pr & pr' & Hp & Hp').
+  pose proof (step_pkg_lock _ _ _ _ _ H Hp Hp') as Hev.
+  destruct (Nat.eq_dec a i) as [->|Hai]; destruct (Nat.eq_dec b i) as [->|Hbi]; try congruence.
+  - assert (pa = pr') by (unfold proc_at in *; congruence); subst pa.
+    apply (step_proc_at_other _ _ _ b pb H) in Hb; auto.
+    rewrite Hl in Hev. destruct (pkg_lock pr) as [x|] eqn:Em; cbn in Hev.
+    + subst x. apply (Inv i b pr pb q Hab Hp Hb Em m Hl2).
+    + exact (pkg_free_x_nth _ _ _ _ m Hev Hb Hl2).
+  - assert (pb = pr') by (unfold proc_at in *; congruence); subst pb.
+    apply (step_proc_at_other _ _ _ a pa H) in Ha; auto.
+    rewrite Hl2 in Hev. destruct (pkg_lock pr) as [x|] eqn:Em; cbn in Hev.
+    + subst x. apply (Inv a i pa pr q Hab Ha Hp Hl m Em).
+    + destruct m.
+      * exact (pkg_free_x_nth _ _ _ _ true Hev Ha Hl).
+      * exact (pkg_free_s_nth _ _ _ _ Hev Ha Hl).
+  - apply (step_proc_at_other _ _ _ a pa H) in Ha; auto. apply (step_proc_at_other _ _ _ b pb H) in Hb; auto.
+    apply (Inv a b pa pb q Hab Ha Hb Hl m Hl2).
+Qed.
+
+(* ------------------------------------------------------------------ how one step changes the store *)
+Lemma step_store_lookup : forall s i s' pr q, step s i = Some s' -> proc_at s i pr ->
+  lookup q (st_store s') = lookup q (st_store s)
+  \/ (p_pc pr = IRename /\ q = o_pkg (cur pr) /\ lookup q (st_store s) = None)
+  \/ (p_pc pr = ULockPkg /\ q = o_pkg (cur pr) /\ pkg_free_x s q = true)
+  \/ ((p_pc pr = UWrite \/ p_pc pr = UUnlockPkg) /\ q = o_pkg (cur pr))
+  \/ (p_pc pr = GMove /\ lookup q (st_store s') = None).
+Proof.
+  intros s i s' pr0 q H Hp0. unfold proc_at in *.
+  step_cases H pr Hpr Hpc; subst; inversion Hp0; subst pr0; clear Hp0;
+    unfold flush_repo;
+    repeat match goal with |- context [if ?b then _ else _] => destruct b end;
+    simp_st; auto.
+  all: try (destruct (N.eq_dec q (o_pkg (cur pr))) as [->|Hne];
+            [|left; first [apply lookup_app_other; auto | apply lookup_set_key_other; auto]]).
+  all: try (destruct (N.eq_dec q (c_id c)) as [->|Hne]; [|left; apply lookup_remove_key_other; auto]).
+  all: try (right; left; repeat split; auto; apply has_key_false; auto; fail).
+  all: try (right; right; left; repeat split; auto; fail).
+  all: try (right; right; right; left; split; auto; fail).
+  all: try (right; right; right; right; split; auto; apply lookup_remove_key_same).
+Qed.
+
+Lemma cur_set_pc : forall pr x, cur (set_pc pr x) = cur pr. Proof. reflexivity. Qed.
+Lemma cur_set_tmp : forall pr x, cur (set_tmp pr x) = cur pr. Proof. reflexivity. Qed.
+Lemma cur_set_attic : forall pr x, cur (set_attic pr x) = cur pr. Proof. reflexivity. Qed.
+Lemma cur_set_repo_mem : forall pr a b c, cur (set_repo_mem pr a b c) = cur pr. Proof. reflexivity. Qed.
+Lemma cur_set_inst : forall pr x, cur (set_inst pr x) = cur pr. Proof. reflexivity. Qed.
+Lemma cur_set_pmeta : forall pr a b, cur (set_pmeta pr a b) = cur pr. Proof. reflexivity. Qed.
+Lemma cur_set_gc : forall pr a b c d e, cur (set_gc pr a b c d e) = cur pr. Proof. reflexivity. Qed.
+Ltac simp_cur := rewrite ?cur_set_pc, ?cur_set_tmp, ?cur_set_attic, ?cur_set_repo_mem, ?cur_set_inst, ?cur_set_pmeta, ?cur_set_gc in *.
+
+Ltac inv_some :=
+  repeat match goal with
+  | E : Some ?a = Some ?b |- _ => assert_fails (constr_eq a b); inversion E; subst; try clear E
+  end.
+
+(* ------------------------------------------------------------------ pc membership helpers *)
+Ltac pc_contra H :=
+  (* H : p_pc X = <constructor>, where X is finish / use_return / gc_return / set_pc ... *)
+  try discriminate H;
+  try (cbn in H; discriminate H);
+  try (rewrite finish_pc in H;
+       match type of H with start_pc ?ops = _ =>
+         destruct (start_pc_cases ops) as [E|[E|[E|[E|E]]]]; rewrite E in H; discriminate H end);
+  try (match type of H with p_pc (use_return ?p ?b) = _ =>
+         destruct (use_return_pc p b) as [E|[E|E]]; rewrite E in H; discriminate H end);
+  try (match type of H with p_pc (gc_return ?p ?b) = _ =>
+         destruct (gc_return_pc p b) as [E|E]; rewrite E in H; [discriminate H|];
+         match type of H with start_pc ?ops = _ =>
+           destruct (start_pc_cases ops) as [E2|[E2|[E2|[E2|E2]]]]; rewrite E2 in H; discriminate H end end).
+
+(* ------------------------------------------------------------------ use: the copy of pkg.json in memory is the file *)
+Definition use_locals (s : state) : Prop :=
+  forall i pr, proc_at s i pr -> (p_pc pr = UWrite \/ p_pc pr = UUnlockPkg) ->
+    exists d, lookup (o_pkg (cur pr)) (st_store s) = Some d /\ d_meta d = Some (p_pmeta pr) /\ d_trunc d = p_dirty pr.
+
+Lemma pkg_lock_use : forall pr, (p_pc pr = UWrite \/ p_pc pr = UUnlockPkg) -> pkg_lock pr = Some (o_pkg (cur pr), true).
+Proof. unfold pkg_lock; intros pr [E|E]; rewrite E; reflexivity. Qed.
+
+Lemma repo_mode_use : forall pr, (p_pc pr = UWrite \/ p_pc pr = UUnlockPkg) -> repo_mode (p_pc pr) = Some false.
+Proof. intros pr [E|E]; rewrite E; reflexivity. Qed.
+
+Lemma use_locals_step : forall s i s', excl_repo s -> excl_pkg s -> use_locals s -> step s i = Some s' -> use_locals s'.
+Proof.
+  intros s i s' ER EP UL H j prj Hj Hpc.
+  destruct (Nat.eq_dec j i) as [->|Hne].
+  - (* the process that moved *)
+    unfold proc_at in Hj.
+    step_cases H pr Hpr Hpc0; subst;
+      unfold flush_repo in Hj;
+      repeat match type of Hj with context [if ?b then _ else _] => destruct b end;
+      simp_st; rewrite (nth_error_set_nth_same _ _ _ _ _ Hpr) in Hj; inversion Hj; subst prj; clear Hj;
+      norm_next;
+      try (destruct Hpc as [Hpc|Hpc]; pc_contra Hpc; fail).
+    + (* ULockPkg, already a user *)
+      unfold disk_meta in *. destruct (d_trunc p) eqn:Et; [discriminate|].
+      exists p. simp_st. unfold cur in *; simp_st. auto.
+    + (* ULockPkg, appended *)
+      eexists. unfold cur in *; simp_st. rewrite lookup_set_key_same. split; [reflexivity|]. cbn. auto.
+    + (* UWrite, buffered *)
+      destruct (UL i pr Hpr (or_introl Hpc0)) as (d & Hd & Hm & Ht).
+      exists d. unfold cur in *; simp_st. auto.
+    + (* UWrite, utime *)
+      destruct (UL i pr Hpr (or_introl Hpc0)) as (d & Hd & Hm & Ht).
+      eexists. unfold cur in *; simp_st. rewrite lookup_set_key_same. split; [reflexivity|].
+      rewrite Hd in *. match goal with E : Some _ = Some _ |- _ => inversion E; subst end. cbn. auto.
+  - (* another process moved *)
+    apply (step_proc_at_other _ _ _ j prj H) in Hj; auto.
+    destruct (UL j prj Hj Hpc) as (d & Hd & Hm & Ht).
+    destruct (step_proc_at_self _ _ _ H) as (pr & pr' & Hp & Hp').
+    destruct (step_store_lookup _ _ _ _ (o_pkg (cur prj)) H Hp) as [E|[(E1 & E2 & E3)|[(E1 & E2 & E3)|[(E1 & E2)|(E1 & E2)]]]].
+    + exists d. rewrite E. auto.
+    + congruence.
+    + exfalso. eapply (pkg_free_x_nth s _ j prj true E3 Hj). apply pkg_lock_use; auto.
+    + exfalso. apply (EP i j pr prj (o_pkg (cur prj))) with (m := true); auto.
+      * rewrite E2. apply pkg_lock_use; auto.
+      * apply pkg_lock_use; auto.
+    + exfalso. assert (repo_mode (p_pc prj) = None).
+      { apply (ER i j pr prj); auto. rewrite E1; reflexivity. }
+      rewrite repo_mode_use in H0; auto. discriminate.
+Qed.
+
+(* ------------------------------------------------------------------ the package under construction in the temporary directory *)
+Definition dir_ok (d : pdir) : Prop :=
+  d_audit d = true /\ exists m, d_meta d = Some m /\ d_tree d = Some (m_hash m).
+
+Definition tmp_ok (s : state) : Prop :=
+  forall i pr, proc_at s i pr ->
+    (p_pc pr = IMeta -> exists d, p_tmp pr = Some d /\ d_audit d = true /\ d_tree d = Some (o_expect (cur pr))) /\
+    (p_pc pr = IRename -> exists d m, p_tmp pr = Some d /\ d_audit d = true /\ d_meta d = Some m /\
+                          d_tree d = Some (m_hash m) /\ m_size m = o_size (cur pr) /\ d_trunc d = false).
+
+Lemma tmp_ok_step : forall s i s', tmp_ok s -> step s i = Some s' -> tmp_ok s'.
+Proof.
+  intros s i s' T H j prj Hj.
+  destruct (Nat.eq_dec j i) as [->|Hne].
+  - unfold proc_at in Hj.
+    step_cases H pr Hpr Hpc0; subst;
+      unfold flush_repo in Hj;
+      repeat match type of Hj with context [if ?b then _ else _] => destruct b end;
+      simp_st; rewrite (nth_error_set_nth_same _ _ _ _ _ Hpr) in Hj; inversion Hj; subst prj; clear Hj;
+      norm_next;
+      try (split; intros Hpc; pc_contra Hpc; fail).
+    + (* ICopy -> IMeta *)
+      split; intros Hpc; [|discriminate Hpc].
+      eexists; split; [reflexivity|]. simp_cur. apply N.eqb_eq in Heqb. cbn [d_audit d_tree]. rewrite Heqb. auto.
+    + (* IMeta -> IRename *)
+      split; intros Hpc; [discriminate Hpc|].
+      destruct (T i pr Hpr) as [T1 _]. destruct (T1 Hpc0) as (d & Hd & Ha & Ht).
+      rewrite Hd in *. match goal with E : Some _ = Some _ |- _ => inversion E; subst end.
+      eexists; eexists; split; [reflexivity|]. simp_cur. cbn. auto 6.
+  - apply (step_proc_at_other _ _ _ j prj H) in Hj; auto. apply (T j prj Hj).
+Qed.
+
+(* ------------------------------------------------------------------ visible => complete and hashed *)
+Definition visible_ok (s : state) : Prop :=
+  forall q d, lookup q (st_store s) = Some d -> dir_ok d.
+
+Lemma lookup_remove_key_some : forall A k k' (v : A) l, lookup k' (remove_key k l) = Some v -> lookup k' l = Some v.
+Proof.
+  intros A k k' v l H. destruct (N.eq_dec k' k) as [->|Hne].
+  - rewrite lookup_remove_key_same in H; discriminate.
+  - rewrite lookup_remove_key_other in H; auto.
+Qed.
+
+Lemma visible_ok_step : forall s i s', tmp_ok s -> use_locals s -> visible_ok s -> step s i = Some s' -> visible_ok s'.
+Proof.
+  intros s i s' T UL V H q d Hq.
+  step_cases H pr Hpr Hpc0; subst;
+    unfold flush_repo in Hq;
+    repeat match type of Hq with context [if ?b then _ else _] => destruct b end;
+    simp_st; norm_next; simp_st;
+    try (apply (V q d Hq); fail);
+    try (apply lookup_remove_key_some in Hq; apply (V q d Hq); fail).
+  - (* IRename *)
+    destruct (N.eq_dec q (o_pkg (cur pr))) as [->|Hne].
+    + rewrite lookup_app_new in Hq by (apply has_key_false; auto). inversion Hq; subst.
+      destruct (T i pr Hpr) as [_ T2]. destruct (T2 Hpc0) as (d0 & m & Hd & Ha & Hm & Ht & _).
+      rewrite Hd in *. inv_some.
+      split; eauto.
+    + rewrite lookup_app_other in Hq by auto. apply (V q d Hq).
+  - (* ULockPkg: users.append *)
+    destruct (N.eq_dec q (o_pkg (cur pr))) as [->|Hne].
+    + rewrite lookup_set_key_same in Hq. inversion Hq; subst; clear Hq.
+      destruct (V _ _ Heqo) as (Ha & m0 & Hm0 & Ht0).
+      unfold disk_meta in *. destruct (d_trunc p); [discriminate|]. rewrite Hm0 in *. inv_some.
+      split; cbn; eauto.
+    + rewrite lookup_set_key_other in Hq by auto. apply (V q d Hq).
+  - (* UWrite: utime *)
+    destruct (N.eq_dec q (o_pkg (cur pr))) as [->|Hne].
+    + rewrite lookup_set_key_same in Hq. inversion Hq; subst; clear Hq.
+      destruct (V _ _ Heqo) as (Ha & m0 & Hm0 & Ht0). split; cbn; eauto.
+    + rewrite lookup_set_key_other in Hq by auto. apply (V q d Hq).
+  - (* UUnlockPkg: flush *)
+    destruct (N.eq_dec q (o_pkg (cur pr))) as [->|Hne].
+    + rewrite lookup_set_key_same in Hq. inversion Hq; subst; clear Hq.
+      destruct (UL i pr Hpr (or_intror Hpc0)) as (d0 & Hd0 & Hm0 & _).
+      rewrite Hd0 in *. inv_some.
+      destruct (V _ _ Hd0) as (Ha & m1 & Hm1 & Ht1). rewrite Hm0 in Hm1. inversion Hm1; subst.
+      split; cbn; eauto.
+    + rewrite lookup_set_key_other in Hq by auto. apply (V q d Hq).
+Qed.
+
+(* ------------------------------------------------------------------ recorded size of an installed package *)
+Definition lsize (s : state) (q : N) : option N :=
+  match lookup q (st_store s) with
+  | Some d => match d_meta d with Some m => Some (m_size m) | None => None end
+  | None => None
+  end.
+
+Lemma step_lsize : forall s i s' pr q, use_locals s -> tmp_ok s -> step s i = Some s' -> proc_at s i pr ->
+  lsize s' q = lsize s q
+  \/ (p_pc pr = IRename /\ q = o_pkg (cur pr) /\ lookup q (st_store s) = None /\ lsize s' q = Some (o_size (cur pr)))
+  \/ (p_pc pr = GMove /\ lookup q (st_store s') = None /\ exists c rest, p_queue pr = c :: rest /\ q = c_id c /\ g_dry pr = false).
+Proof.
+  intros s i s' pr0 q UL T H Hp0. unfold proc_at in *. unfold lsize.
+  step_cases H pr Hpr Hpc; subst; inversion Hp0; subst pr0; clear Hp0;
+    unfold flush_repo;
+    repeat match goal with |- context [if ?b then _ else _] => destruct b end;
+    simp_st; auto.
+  all: try (destruct (N.eq_dec q (o_pkg (cur pr))) as [->|Hne];
+            [|left; first [rewrite lookup_app_other by auto; reflexivity | rewrite lookup_set_key_other by auto; reflexivity]]).
+  all: try (destruct (N.eq_dec q (c_id c)) as [->|Hne];
+            [right; right; split; [auto|split; [apply lookup_remove_key_same|eauto 6]]
+            |left; rewrite lookup_remove_key_other by auto; reflexivity]).
+  - (* IRename *)
+    right; left. destruct (T i pr Hpr) as [_ T2]. destruct (T2 Hpc) as (d0 & m & Hd & Ha & Hm & Ht & Hs & _).
+    rewrite Hd in *. inv_some. repeat split; auto; [apply has_key_false; auto|].
+    rewrite lookup_app_new by (apply has_key_false; auto). rewrite Hm. congruence.
+  - (* ULockPkg *)
+    left. rewrite lookup_set_key_same, Heqo. cbn. unfold disk_meta in *.
+    destruct (d_trunc p); [discriminate|]. rewrite Heqo0. reflexivity.
+  - (* UWrite utime *)
+    left. rewrite lookup_set_key_same, Heqo. cbn. reflexivity.
+  - (* UUnlockPkg flush *)
+    left. rewrite lookup_set_key_same, Heqo. cbn.
+    destruct (UL i pr Hpr (or_intror Hpc)) as (d0 & Hd0 & Hm0 & _). rewrite Hd0 in *. inv_some. rewrite Hm0. reflexivity.
+Qed.
+
+(* ------------------------------------------------------------------ sorting *)
+Lemma In_insert_cand : forall c x l, In c (insert_cand x l) <-> c = x \/ In c l.
+Proof.
+  induction l as [|y r IH]; cbn; [intuition|].
+  destruct (cand_leb x y); cbn; [intuition|]. rewrite IH. intuition.
+Qed.
+
+Lemma In_sort_cands : forall c l, In c (sort_cands l) <-> In c l.
+Proof.
+  induction l as [|y r IH]; cbn; [tauto|]. rewrite In_insert_cand, IH. intuition.
+Qed.
+
+(* ------------------------------------------------------------------ where gc candidates come from *)
+Definition new_scan (s : state) (pr : proc) (c : cand) : Prop :=
+  p_pc pr = GScanLock /\
+  exists sz rest d m, p_todo pr = (c_id c, sz) :: rest /\ pkg_free_s s (c_id c) = true /\
+     lookup (c_id c) (st_store s) = Some d /\ disk_meta d = Some m /\
+     c_unused c = (check_unused (st_links s) (m_users m) (c_id c) && negb (is_newpkg pr (c_id c))).
+
+Lemma gphase_start : forall ops, gphase (start_pc ops) = false.
+Proof. intros ops; destruct (start_pc_cases ops) as [E|[E|[E|[E|E]]]]; rewrite E; reflexivity. Qed.
+
+Lemma gphase_use_return : forall pr b, gphase (p_pc (use_return pr b)) = false.
+Proof. intros; destruct (use_return_pc pr b) as [E|[E|E]]; rewrite E; reflexivity. Qed.
+
+Lemma gphase_gc_return : forall pr b, gphase (p_pc (gc_return pr b)) = false.
+Proof. intros; destruct (gc_return_pc pr b) as [E|E]; rewrite E; [reflexivity|apply gphase_start]. Qed.
+
+Lemma step_cands : forall s k s' pr pr', step s k = Some s' -> proc_at s k pr -> proc_at s' k pr' ->
+  gphase (p_pc pr') = true ->
+  (p_pc pr = GLock /\ p_cands pr' = [] /\ p_queue pr' = []) \/
+  (gphase (p_pc pr) = true /\ p_ops pr' = p_ops pr /\
+   forall c, In c (p_cands pr') \/ In c (p_queue pr') -> (In c (p_cands pr) \/ In c (p_queue pr)) \/ new_scan s pr c).
+Proof.
+  intros s k s' pr0 pr' H Hp0 Hp' Hg. unfold proc_at in *.
+  step_cases H pr Hpr Hpc; subst; inversion Hp0; subst pr0; clear Hp0;
+    unfold flush_repo in Hp';
+    repeat match type of Hp' with context [if ?b then _ else _] => destruct b end;
+    simp_st; rewrite (nth_error_set_nth_same _ _ _ _ _ Hpr) in Hp'; inversion Hp'; subst pr'; clear Hp';
+    norm_next;
+    try (rewrite finish_pc, gphase_start in Hg; discriminate Hg);
+    try (rewrite gphase_use_return in Hg; discriminate Hg);
+    try (rewrite gphase_gc_return in Hg; discriminate Hg);
+    try (cbn in Hg; discriminate Hg);
+    try (left; simp_st; auto; fail);
+    right; rewrite Hpc; (split; [reflexivity|]); (split; [reflexivity|]); simp_st; intros c0 Hc;
+    try (left; exact Hc).
+  - (* GScan, package directory is gone, last one: sort *)
+    left. destruct Hc as [Hc|Hc]; auto. apply In_sort_cands in Hc; auto.
+  - left. destruct Hc as [Hc|Hc]; auto. apply In_sort_cands in Hc; auto.
+  - (* GScanLock *)
+    destruct Hc as [Hc|Hc]; [|auto].
+    match type of Hc with In _ (if ?b then _ else _) => destruct b end; [|auto].
+    apply in_app_iff in Hc. destruct Hc as [Hc|[Hc|[]]]; [auto|]. subst c0.
+    right. split; [assumption|]. cbn [c_id c_unused]. eauto 10.
+  - (* GScanUnlock, last one: sort *)
+    left. destruct Hc as [Hc|Hc]; auto. apply In_sort_cands in Hc; auto.
+  - left. destruct Hc as [Hc|Hc]; auto. apply In_sort_cands in Hc; auto.
+  - (* GMove dry *)
+    left. destruct Hc as [Hc|Hc]; auto. right. rewrite Heql. right; auto.
+  - left. destruct Hc as [Hc|Hc]; auto. right. rewrite Heql. right; auto.
 Qed.
